@@ -240,6 +240,11 @@ detail::TypedArgBase*
    mSubGroupArgs.addArgument( arg_hdl, key);
    mDescription.addArgument( desc, arg_hdl);
 
+   // same as for all other arguments: the key must not be used by another
+   // handler of the argument group
+   if (mUsedByGroup)
+      Groups::instance().crossCheckArguments( this);
+
    return arg_hdl;
 } // Handler::addArgument
 
